@@ -169,7 +169,11 @@ def run_cli(case):
         kind, out, _ = run_simple(["hex", "encode", "@INPUT@"], bytes([int(parts[2])]) * int(parts[1]), via_file=vf, timeout=120)
         return render(kind, hashlib.sha256(out).hexdigest().encode() + b" %d" % len(out)) if kind == "ok" else render(kind, out)
     if op == "cli.hash_tx":
-        argv = ["hash", "transaction"] + ([] if parts[2] == "none" else ["--signature=" + utf8(parts[2])]) + ["@INPUT@"]
+        style = meta.get("sig_style", "eq")
+        sig = [] if parts[2] == "none" else (["--signature=" + utf8(parts[2])] if style == "eq" else ["--signature", utf8(parts[2])] if style == "sep" else ["-s", utf8(parts[2])])
+        if sig and style != "eq" and utf8(parts[2]).startswith("-"):
+            sig = ["--signature=" + utf8(parts[2])]  # a separate value that looks like an option would be read as one
+        argv = ["hash", "transaction"] + sig + ["@INPUT@"]
         kind, out, _ = run_simple(argv, unhx(parts[1]), via_file=vf)
         return render(kind, out)
     if op == "cli.hash_td":
